@@ -119,6 +119,7 @@ def main():
     ap.add_argument("--repo", default="/repo")
     ap.add_argument("--jobs", type=int, default=14)
     ap.add_argument("-v", action="store_true")
+    ap.add_argument("--where", action="store_true", help="only print the cached facts directory of each selected variant (for sa/dump.py)")
     a = ap.parse_args()
     props = a.prop.split(",") if a.prop else ALL
     digest = repo_digest(a.repo)
@@ -126,6 +127,10 @@ def main():
     # stage 1: facts (extract.sh serialises on the shared target dir; a small pool keeps the pipe full)
     with ThreadPoolExecutor(max_workers=3) as ex:
         fx = list(ex.map(lambda e: facts_for(e, a.repo, digest), ents))
+    if a.where:
+        for e, (d, err) in zip(ents, fx):
+            print("%-40s %s" % (e["name"], d or err))
+        return 0
     # stage 2: rule evaluation
     jobs = []
     for e, (d, err) in zip(ents, fx):
